@@ -193,7 +193,7 @@ def run_check(prop, tier, seed, replay=None):
             while time.time() < t_end and not found:
                 k += 1
                 r2 = random.Random(seed * 1000003 + k)
-                cs = prop.generate(r2, 'thorough' if k > 1 else tier)
+                cs = prop.generate(r2, tier)       # fresh seeds, same size: the budget bounds the search
                 if not cs:
                     break
                 ms, ss = lib.run_model(model_exe, cs)
